@@ -62,7 +62,7 @@ PROPS = {
                         'configurations with more than 1e7 cells are outside the quantifier and skipped'],
         'tiers': {'quick': {'deadline': 300}, 'thorough': {'deadline': 3000}},
         'engine': 'lattice',
-        'technique': 'bounded-exhaustive input/configuration lattice enumeration on the real code, definitional oracle in long double',
+        'technique': 'bounded-exhaustive input/configuration lattice enumeration on the real code (three constructor forms incl. twin axes; constructed / copied / assigned objects), definitional oracle in long double',
         'level_text': 'every grid configuration and every point of a stated finite lattice (dense at cell borders, bounds, '
                       'centres, one-ulp neighbours) is mapped by the real GridIndexMapping and checked against the '
                       'definition; complete enumeration of that lattice, nothing sampled',
@@ -82,7 +82,7 @@ PROPS = {
                 'the translation both keeps and blanks cells (S1) or is a second or later translation (S2).',
         'assumptions': ['cell type int (the grid only copies values)', 'states are (impl offsets, model accumulated offset mod size[, value pattern])'],
         'tiers': {'quick': {'deadline': 600, 'case_timeout': 300}, 'thorough': {'deadline': 3000, 'case_timeout': 600}},
-        'technique': 'explicit-state model checking of the implementation: BFS over operation sequences to fixpoint / stated depth with a reference window model in lock-step',
+        'technique': 'explicit-state model checking of the implementation: BFS over operation sequences to fixpoint / stated depth with a reference window model in lock-step; grids obtained by copy and by assignment; first-access checks',
         'level_text': 'all reachable index-offset states (fixpoint) with every offset from every state, and every '
                       'translation/write sequence up to depth 3 on all grid sizes the property names, each step compared '
                       'cell by cell with a window-over-unbounded-map model on the real object',
@@ -104,7 +104,7 @@ PROPS = {
         'assumptions': ['sample values are mid-cell multiples of the precision so truncation is unambiguous',
                         'precision 1e-5: the library multiplier is int(1/1e-5); one quantum of disagreement with round(1/p) is allowed there'],
         'tiers': {'quick': {'deadline': 300}, 'thorough': {'deadline': 3000, 'case_timeout': 300}},
-        'technique': 'explicit-state model checking of the implementation (BFS to fixpoint) plus deviation-bounded exhaustive long runs, deque reference model and fresh-object differential oracle',
+        'technique': 'explicit-state model checking of the implementation (BFS to fixpoint), exhaustive sequences without de-duplication (incl. copies), deviation-bounded exhaustive long runs on three scripts, exact integer reference model',
         'level_text': 'every reachable product state of small windows is visited and every operation tried from it; '
                       'long runs cover every window size with every placement of up to k deviations; the ring buffer is '
                       'explored to fixpoint for every capacity 1..16; UBSan turns signed overflow into a failing case',
@@ -151,7 +151,7 @@ PROPS = {
                         'rate compared within 4 ulp; a rate within 8 ulp of a threshold may take either verdict, consistently',
                         'info string must be the default ostream print of the rate (or of a value within 4 ulp of the model rate)'],
         'tiers': {'quick': {'deadline': 600, 'case_timeout': 400}, 'thorough': {'deadline': 3300, 'case_timeout': 1800}},
-        'technique': 'explicit-state model checking of the implementation: BFS over event histories to fixpoint (history replay on fresh objects) + deviation-bounded exhaustive scripts, reference model in lock-step',
+        'technique': 'explicit-state model checking of the implementation: BFS over event histories to fixpoint (history replay on fresh objects at three time origins), exhaustive sequences without de-duplication, deviation-bounded and jittered long scripts, reference model in lock-step',
         'level_text': 'all reachable product states for window 4 with every event from every state; for windows up to 64 '
                       'every placement of up to k deviations in a steady script; rate, timeout verdict, returned status '
                       'and the full report compared with the model after every event',
@@ -172,7 +172,7 @@ PROPS = {
         'assumptions': ['tolerance (cells+4) ulp(max(range,|coord|)) + 4 ulp(|coord|) for "segment crosses cell" and "last cell contains end point"; recorded as a fraction of the resolution in metrics_max',
                         'operations that the interface gives no meaning to (setEndPoint / cast(e) before any origin was set) are not in the alphabet'],
         'tiers': {'quick': {'deadline': 400, 'case_timeout': 120}, 'thorough': {'deadline': 3300, 'case_timeout': 900}},
-        'technique': 'exhaustive enumeration of caster operation sequences to a depth with a fresh-object differential oracle, plus an exhaustive origin/end/grid lattice with a geometric oracle',
+        'technique': 'exhaustive enumeration of caster operation sequences to a depth and a deviation-bounded long script (fresh-object differential oracle), plus exhaustive origin/end/grid lattices incl. near-corner and long rays with a geometric oracle built from the grid definition',
         'level_text': 'every operation sequence up to depth 3 (thorough 4) over a 32-operation alphabet, on all four '
                       'instantiations, and every origin/end pair of a boundary-dense point lattice on grids up to 2001 '
                       'cells per axis; each cast checked cell by cell against the segment',
@@ -193,7 +193,7 @@ PROPS = {
                 'coordinate cases.',
         'assumptions': ['normaliser intervals read as closed ([0,2pi], [-pi,pi])', 'spherical round trip tolerance 8 eps (1 + 1/max(theta, sqrt(eps))) relative to the norm because the elevation is acos-based'],
         'tiers': {'quick': {'deadline': 300}, 'thorough': {'deadline': 3000, 'case_timeout': 300}},
-        'technique': 'bounded-exhaustive lattice enumeration on the real code with long-double definitional oracle; exhaustive init() sequences to a depth on one object',
+        'technique': 'bounded-exhaustive lattice enumeration on the real code with long-double definitional oracle; exhaustive init() sequences to a depth and long init trajectories on one object; value-semantics checks of the coordinate classes',
         'level_text': 'complete enumeration of a boundary-dense angle lattice in float and double through every conversion '
                       'path the property names, of an axis-angle matrix lattice, of the normaliser inputs around every '
                       'multiple of pi/2 and of all SmartRotation3D::init sequences to depth 4',
@@ -215,7 +215,7 @@ PROPS = {
                 'not axis-aligned.',
         'assumptions': ['cases within 1e-3 rad of gimbal lock before or after the transform are outside the quantifier and skipped'],
         'tiers': {'quick': {'deadline': 300}, 'thorough': {'deadline': 3300, 'case_timeout': 1500}},
-        'technique': 'bounded-exhaustive lattice enumeration on the real code with long-double reference rotations and exact component-selection oracle',
+        'technique': 'bounded-exhaustive lattice enumeration on the real code (cube-group and nearly planar transforms, graded nearly-special ellipse axes) with long-double reference rotations and exact component-selection oracle',
         'level_text': 'complete enumeration of the stated catalogues (PSD covariances incl. rank-deficient, attitudes up to '
                       '1.5e-3 rad from gimbal lock, 27 rigid transforms and their compositions, rotated and singular 2x2 '
                       'covariances) through every conversion the property names',
@@ -239,7 +239,7 @@ PROPS = {
         'assumptions': ['finite-difference truncation error below 1e-9 for h=1e-4 with Richardson extrapolation (angles O(1))',
                         'a derivative residual that equals exactly the leftover-identity term is classified separately (site suffix .strayIdentityTerm) so that any other derivative error is still a violation'],
         'tiers': {'quick': {'deadline': 300}, 'thorough': {'deadline': 3000}},
-        'technique': 'bounded-exhaustive lattice of linearisation points on the real code with a finite-difference oracle built from the implementation own maps; exhaustive init/read sequences on one rotation object against a fresh object',
+        'technique': 'bounded-exhaustive lattice of linearisation points on the real code with a finite-difference oracle built from the implementation own maps; exhaustive init/read/copy sequences and every count of inits between reads on one rotation object against a fresh object',
         'level_text': 'every linearisation point of the stated lattices (pitch up to pi/2-0.05, 28 rigid transforms incl. nearly planar ones, 36 '
                       'attitudes, 14 PSD covariances incl. rank-1) compared with finite differences of the implementation '
                       'own maps',
@@ -259,7 +259,7 @@ PROPS = {
                 'face, every enclosing-box / interval / container case, point sets with a negative octant.',
         'assumptions': ['a query point within 8 ulp(scale) of a face may get either verdict (rounding of p-c and R^T), except for centre 0 / identity rotation where the comparison is exact'],
         'tiers': {'quick': {'deadline': 300}, 'thorough': {'deadline': 3000}},
-        'technique': 'bounded-exhaustive lattice enumeration on the real code, definitional oracle in long double',
+        'technique': 'bounded-exhaustive lattice enumeration on the real code (constructed / copied / assigned objects, unique extreme at every index, recompute and refilled buffers), definitional oracle in long double',
         'level_text': 'complete enumeration of the stated centre/extent/rotation/query lattices for both box kinds, of all '
                       'interval pairs over a bound lattice, and of point sets in every octant for all eight point types',
         'level_note': 'lattice values only',
@@ -277,7 +277,7 @@ PROPS = {
                 '1e-2 rad of 0, +-pi/2, +-pi or |latitude| > 1.55 rad, and every exact-antimeridian Cartesian point.',
         'assumptions': ['termination is observed by the per-case watchdog (20 s)'],
         'tiers': {'quick': {'deadline': 300}, 'thorough': {'deadline': 3000}},
-        'technique': 'bounded-exhaustive input/configuration lattice enumeration on the real code, definitional oracle in long double',
+        'technique': 'bounded-exhaustive input/configuration lattice enumeration on the real code plus step-size-graded trajectories on one long-lived converter, definitional oracle in long double',
         'level_text': 'complete enumeration of a lattice that is dense exactly where the conversion formulas change regime '
                       '(antimeridian, prime and 90-degree meridians, high latitudes, negative heights, sphere and extreme '
                       'flattenings); every point checked against the definition of the normal construction',
@@ -299,7 +299,7 @@ PROPS = {
         'assumptions': ['conversions that assert(isAnchored_) are only issued when the model says anchored (documented precondition)',
                         'for the altitude-less toENU overload the oracle completes the point with the anchor altitude the converter reports'],
         'tiers': {'quick': {'deadline': 300}, 'thorough': {'deadline': 3000, 'case_timeout': 600}},
-        'technique': 'exhaustive enumeration of converter operation sequences to a depth (reachable state set closed) with a reference model and fresh-object differential oracle, plus an exhaustive anchor/point lattice against the frame definition',
+        'technique': 'exhaustive enumeration of converter operation sequences to a depth (incl. assignment and copy; reachable state set closed), deviation-bounded long script, re-anchoring trajectories, reference model and fresh-object differential oracle, plus an exhaustive anchor/point lattice against the frame definition',
         'level_text': 'all operation sequences up to depth 4 (thorough 5) from every construction form, which closes the '
                       'reachable state set and tries every operation from every reachable state; frame orientation decided '
                       'against the definition (east = z x up), not by round trips',
@@ -319,7 +319,7 @@ PROPS = {
                 'origin, every standard-parallel check and every interleaved call.',
         'assumptions': ['finite differences with step 1e-5 rad: truncation + rounding below 1e-9 relative', 'a conversion that does not return within the per-case deadline is a violation (outcome hang)'],
         'tiers': {'quick': {'deadline': 400, 'case_timeout': 15}, 'thorough': {'deadline': 3000, 'case_timeout': 15}},
-        'technique': 'bounded-exhaustive configuration/input lattice enumeration on the real code; geometric oracle (conformality, true scale) from finite differences of the implementation own forward map; watchdog for termination',
+        'technique': 'bounded-exhaustive configuration/input lattice enumeration on the real code; geometric oracle (conformality, true scale) from finite differences of the implementation own forward map; interleaved long-lived converters; step-size-graded trajectories; watchdog for termination',
         'level_text': 'complete enumeration of the stated parameter-set and point lattices in both hemispheres; the defining '
                       'geometric properties are decided at every point rather than pinned values',
         'level_note': 'lattice values only',
@@ -341,7 +341,7 @@ PROPS = {
         'assumptions': ['normal-equation accuracy bound 8 p eps kappa(J)^2; cases with 8 p kappa^2 eps > 0.5 carry no digits and are skipped (counted in trivial_skipped)',
                         're-estimating without refilling after weightedEstimate is not in the alphabet (the weighted path overwrites J and Y in place)'],
         'tiers': {'quick': {'deadline': 400, 'case_timeout': 120}, 'thorough': {'deadline': 3300, 'case_timeout': 1200}},
-        'technique': 'exhaustive enumeration of problem sequences on one solver object with NaN-poisoned buffers and fresh-object differential oracle, plus an exhaustive problem lattice against a QR reference',
+        'technique': 'exhaustive enumeration of problem sequences on one solver object (incl. assignment and copy) with NaN-poisoned buffers and fresh-object differential oracle, deviation-bounded long script, data-size profiles, plus an exhaustive problem lattice incl. every data size against a QR reference',
         'level_text': 'all sequences of up to 3 (thorough 4) problems of varying estimate and data sizes on one solver, and a '
                       'complete lattice of conditioned / scaled / weighted / preconditioned problems through the Cholesky, '
                       'SVD and weighted paths',
@@ -360,7 +360,7 @@ PROPS = {
                 'brute force; non-trivial = k>1.',
         'assumptions': ['distances compared within 4 eps relative (same scalar type, same summation order as the metric adaptor)'],
         'tiers': {'quick': {'deadline': 400, 'case_timeout': 120}, 'thorough': {'deadline': 3000, 'case_timeout': 600}},
-        'technique': 'bounded-exhaustive small-scope enumeration of point multisets x queries x k on the real index, brute-force oracle; structured large sets',
+        'technique': 'bounded-exhaustive small-scope enumeration of point multisets x queries x k on the real index, brute-force oracle; structured large sets near and far from the origin; query-order independence; two coexisting trees',
         'level_text': 'small-scope hypothesis made exhaustive: all point multisets up to 5 points of a lattice, every leaf '
                       'size that changes the tree shape, every query of a half-step lattice and every k; plus structured '
                       'sets up to 5000 points for the shipped leaf size',
@@ -381,7 +381,7 @@ PROPS = {
                 'checked for every point).',
         'assumptions': ['direction tolerance 6 eps (1+R/s)/gap with R the coordinate magnitude and s the neighbourhood spread (two-pass covariance in the scalar type)'],
         'tiers': {'quick': {'deadline': 400, 'case_timeout': 120}, 'thorough': {'deadline': 3000, 'case_timeout': 600}},
-        'technique': 'bounded-exhaustive configuration lattice on the real code; PCA reference in long double on the implementation own neighbourhoods, analytic normals for planar clouds, rotation differential oracle',
+        'technique': 'bounded-exhaustive configuration lattice on the real code; PCA reference in long double on the implementation own neighbourhoods, analytic normals for planar clouds, rotation differential oracle, history / copy / refilled-buffer differential oracle',
         'level_text': 'complete enumeration of the cloud / k / type / rotation / output-initialisation lattice with every '
                       'clause of the property decided per point (unit length, sensor-facing, least-variance direction, '
                       'exact planar normal, curvature range, equivariance)',
@@ -402,7 +402,7 @@ PROPS = {
         'assumptions': ['rotation accuracy bound 64 eps n Ms Mt/(s_{d-1}+s_d) from the perturbation theory of the orthogonal Procrustes problem; cases where a quarter of it exceeds 1e-9 (float 1e-4) are not resolvable in that scalar type and are counted in trivial_skipped',
                         'preconditioning means the same isotropic scale on both sets without translation (the only form under which the library formula is an identity)'],
         'tiers': {'quick': {'deadline': 400, 'case_timeout': 200}, 'thorough': {'deadline': 3000, 'case_timeout': 900}},
-        'technique': 'bounded-exhaustive input/configuration lattice on the real estimator, independent reference solution (Horn) in long double',
+        'technique': 'bounded-exhaustive input/configuration lattice on the real estimator incl. every point count, poisoned unreferenced points and reused / copied / assigned estimators, independent reference solution (Horn) in long double',
         'level_text': 'complete enumeration of the stated catalogue through all four overloads and all eight point types; '
                       'properness of the rotation and optimality decided for every case',
         'level_note': 'catalogue values only',
@@ -425,7 +425,7 @@ PROPS = {
         'assumptions': ['normal-equation accuracy bound 4 p eps kappa(J)^2 (|x|+|Y|/smax); systems with kappa(J)^2 >= 1e6 are outside the quantifier, systems that carry no digits in the scalar type (64 p eps kappa^2 > 0.05, e.g. float at scale 1e3) are counted in trivial_skipped',
                         'preconditioning = same isotropic scale on both sets, no translation, announced through setPreconditioner'],
         'tiers': {'quick': {'deadline': 400, 'case_timeout': 200}, 'thorough': {'deadline': 3000, 'case_timeout': 900}},
-        'technique': 'bounded-exhaustive input/configuration lattice plus exhaustive call sequences on one estimator (real code); the defining linear system rebuilt independently and solved by QR in long double, fresh-object differential oracle',
+        'technique': 'bounded-exhaustive input/configuration lattice incl. every correspondence count, exhaustive call sequences and a deviation-bounded long script on one estimator (real code); the defining linear system rebuilt independently and solved by QR in long double, fresh-object differential oracle',
         'level_text': 'complete enumeration of the scene / motion / correspondence / overload lattice for all eight point '
                       'types; optimality (normal equations), shape of the returned matrix, invariances decided for every '
                       'case; independence of the call history decided for every sequence of calls up to the stated depth',
